@@ -11,6 +11,7 @@ RULE = ("Hypothesis generates (A, b, block covariance with bands, regularisation
         "by construction (exact integer combinations of independent columns, random column order); each case is solved by "
         "all four algorithms through GNU_gama::Adj and through the four AdjBase classes on the numpy-whitened system "
         "and compared with a numpy SVD reference (x, residual identity, normal equations, v'Pv, defect). "
+        "Part 'large' (and its relatives): graph-structured sparse problems with 10-40 unknowns and up to ~130 rows (connected components in random numbering, weighted difference / second-difference rows, anchored and floating components = exact defects 0..3, zero columns, covariance blocks up to dimension 10 with any band) through the same oracle. "
         "Network part: generated gama-local networks, the linear system dumped by the driver is re-solved by numpy. "
         "Non-trivial = defect>0 or a covariance block with band>0 or a proper regularisation subset "
         "(or a network with correlated cluster / constrained points); distinct by sha1 of the case.")
@@ -224,6 +225,10 @@ def oracle_network(c, stats):
 PARTS = [
     Part("linear", strategy=lambda: gen_linear.linear_problem(), oracle=oracle_linear,
          nontrivial=nontrivial, n={"quick": 4000, "thorough": 40000}),
+    Part("large", strategy=lambda: gen_linear.graph_problem(), oracle=oracle_linear,
+         nontrivial=nontrivial, n={"quick": 600, "thorough": 8000},
+         sample=lambda c: {"m": c["m"], "n": c["n"], "d": c["d"], "mode": c["mode"], "minx": c["minx"],
+                           "bands": [b["width"] for b in c["blocks"]]}),
     Part("network", strategy=net_case, oracle=oracle_network, n={"quick": 3000, "thorough": 25000},
          nontrivial=lambda c: bool(c["net"].get("free") or any(cl.get("cov") for cl in c["net"]["clusters"])),
          sample=lambda c: {"alg": c["alg"], "free": bool(c["net"].get("free")), "points": [p["id"] for p in c["net"]["points"]]}),
